@@ -74,10 +74,21 @@ def run(env):
         cs = [str(x) for x in pf["cs"]]
         sc.append({"ctx": sp["ctx"], "op": "shuffle_us", "args": [sp["_pk"], sp["_es"], sp["_out"], cs, str(sp["n"]), sp.get("label", "x:")], "tag": "shuffle_us", "_sp": sp})
         sc.append({"ctx": sp["ctx"], "op": "shuffle_challenge", "args": [sp["_pk"], sp["_es"], sp["_out"], sp["_proof"], sp.get("label", "x:")], "tag": "shuffle_challenge", "_sp": sp})
+    # the same statements under every label of the pool (empty, ASCII, padded, non-UTF-8, NUL, 65 and 140 bytes) and a
+    # 4 kB label: both shuffle challenge functions against the model transcript
+    for sp in live:
+        if sp["ctx"].endswith("2048"):
+            continue
+        pf = wire.parse_proof(sp["ctx"][0], wire.unhx(sp["_proof"])); cs = [str(x) for x in pf["cs"]]
+        for lab in LABEL_POOL[1:] + ["x:" + r.randbytes(4096).hex()]:
+            sc.append({"ctx": sp["ctx"], "op": "shuffle_us", "args": [sp["_pk"], sp["_es"], sp["_out"], cs, str(sp["n"]), lab], "tag": "shuffle_us-labels", "_sp": sp, "_nopert": True})
+            sc.append({"ctx": sp["ctx"], "op": "shuffle_challenge", "args": [sp["_pk"], sp["_es"], sp["_out"], sp["_proof"], lab], "tag": "shuffle_challenge-labels", "_sp": sp, "_nopert": True})
     sco = env.harness(sc)
     pert2 = []
     for c, o in zip(sc, sco):
         items.append((c, c["ctx"], c["op"], c["args"], o))
+        if c.get("_nopert"):
+            continue
         sp = c["_sp"]; P_, q_, g_ = pq(c["ctx"]); a = c["args"]
         big = c["ctx"].endswith("2048") or int(c["ctx"].split(":")[1]) > 2 ** 60
         if c["op"] == "shuffle_us":
